@@ -431,7 +431,7 @@ def build(program, directory):
     handles = []
     for h in program["handles"]:
         if "file" in h:
-            obj = files[h["file"]].make(ci if not h.get("peer") else ci.peer)
+            obj = files[h["file"]].make(CLASSES[h["cls"]] if h.get("cls") else (ci if not h.get("peer") else ci.peer))
             handles.append(obj)
         else:
             cur = handles[h["of"]]
@@ -448,13 +448,22 @@ def execute(program, schedule, directory):
     ctx = None
     setup_error = None
     buf = program.get("buffered")
-    root_cls = type(handles[0])
+    root_cls = ci.cls
     if buf is not None:
         cap = buf.get("cap")
         ctx = root_cls.buffer_backend(cap) if cap is not None else root_cls.buffer_backend()
         ctx.__enter__()
     for pre_op in program.get("pre_ops", []):
         ops.real_apply(handles[pre_op["h"]], kinds[pre_op["h"]], pre_op["m"], dec(pre_op.get("a", [])), {})
+    if program.get("children_after_enter"):
+        # nested handles are taken INSIDE the buffered context (handles from before it are the
+        # subject of known finding K1, not of the concurrency properties)
+        for i, h in enumerate(program["handles"]):
+            if "of" in h:
+                cur = handles[h["of"]]
+                for k in dec(h["path"]):
+                    cur = cur[k]
+                handles[i] = cur
 
     ctx_state = {"main_exited": False, "own": []}
 
